@@ -314,7 +314,7 @@ PROPS = {
             {"test": "TestC11Shipped", "checks": 200000, "shards": 4},
         ],
         "assumptions": [
-            "lazy includes are written with rooted names: the statement promises literal/computed equality for rooted names only (a lazy relative name resolves against the executing root template, not the referring file)",
+            "computed (lazy) names are rooted, or relative in files that are executed as templates of their own (the root, included files); in a file that extends another one a computed relative name would be resolved against the base that is being executed - not asserted",
             "C11.compose: all loaders resolve names the same way (slash paths, rooted or relative to the referring file, cleaned); C11.shipped runs the shipped loaders, each with the resolution rule its documentation states (LocalFilesystemLoader with a base directory resolves relative names against the base, HttpFilesystemLoader takes every name from its root)",
             "reads of the real file system are detected through canary files in the worker's working directory whose text must never appear (system calls are not traced)",
         ],
